@@ -28,7 +28,8 @@ class OrderedSet:
         for x in items:
             if not any(x is y for y in seen):
                 seen.append(x)
-        self._items = self._permute(seen)
+        self._items = seen
+        self._dirty = True       # the iteration order is (re)chosen when the set is next iterated / popped after a change
 
     def _permute(self, items):
         n = len(items)
@@ -42,7 +43,14 @@ class OrderedSet:
         p = self._ctx.choice('order_of_set_%d_size_%d' % (k, n), perms)
         return [items[i] for i in p]
 
+    def _settle(self):
+        """a real set of Groups iterates in an address-dependent order that is stable until the set changes: choose it now"""
+        if self._dirty:
+            self._items = self._permute(self._items)
+            self._dirty = False
+
     def __iter__(self):
+        self._settle()
         return iter(list(self._items))
 
     def __len__(self):
@@ -54,18 +62,30 @@ class OrderedSet:
     def add(self, x):
         if x not in self:
             self._items.append(x)
+            self._dirty = True
 
     def pop(self):
         if not self._items:
             raise KeyError('pop from an empty set')
+        self._settle()
         return self._items.pop(0)
 
     def __isub__(self, other):
         self._items = [x for x in self._items if not any(x is y for y in other)]
         return self
 
+    def __sub__(self, other):
+        r = OrderedSet(self._ctx, self._counter)
+        r._items = [x for x in self._items if not any(x is y for y in other)]
+        return r
+
+    def __eq__(self, other):
+        return len(self) == len(other) and all(x in self for x in other)
+    __hash__ = None
+
     def __ior__(self, other):
-        for x in other:
+        # membership of a union does not depend on the order in which `other` is walked: no order is chosen for it
+        for x in (other._items if isinstance(other, OrderedSet) else other):
             self.add(x)
         return self
 
